@@ -190,9 +190,7 @@ func (w *sideWorld) restart() *sideWorld {
 // apiGet / apiPost call the real service handler in process, decoding the answer exactly as
 // pkg/api.Get / Post do.
 func (w *sideWorld) apiGet(path string, ret interface{}) error {
-	rec := httptest.NewRecorder()
-	w.svc.ServeHTTP(rec, httptest.NewRequest("GET", path, nil))
-	return decodeAPI(rec, ret)
+	return decodeAPI(w.serve("GET", path, nil), ret)
 }
 
 func (w *sideWorld) apiPost(path string, req interface{}, ret interface{}) error {
@@ -204,11 +202,29 @@ func (w *sideWorld) apiPost(path string, req interface{}, ret interface{}) error
 		}
 		body = b
 	}
-	rec := httptest.NewRecorder()
-	r := httptest.NewRequest("POST", path, bytes.NewReader(body))
-	r.Header.Set("Content-Type", "application/json")
-	w.svc.ServeHTTP(rec, r)
-	return decodeAPI(rec, ret)
+	return decodeAPI(w.serve("POST", path, body), ret)
+}
+
+// serve runs one request through the real service handler, following redirects as net/http's
+// client does (gin redirects /x to /x/ with 307 for POST and 301 for GET).
+func (w *sideWorld) serve(method, path string, body []byte) *httptest.ResponseRecorder {
+	var rec *httptest.ResponseRecorder
+	for i := 0; i < 4; i++ {
+		rec = httptest.NewRecorder()
+		r := httptest.NewRequest(method, path, bytes.NewReader(body))
+		if body != nil {
+			r.Header.Set("Content-Type", "application/json")
+		}
+		w.svc.ServeHTTP(rec, r)
+		if rec.Code == 301 || rec.Code == 302 || rec.Code == 307 || rec.Code == 308 {
+			if loc := rec.Header().Get("Location"); loc != "" {
+				path = loc
+				continue
+			}
+		}
+		break
+	}
+	return rec
 }
 
 func decodeAPI(rec *httptest.ResponseRecorder, ret interface{}) error {
